@@ -52,7 +52,7 @@ type c17Stream struct {
 	closeSends int
 
 	// in-flight message: the Recv call that would deliver frame holdAt waits until the request's
-	// context is cancelled (the request ended early) or 30 ms passed, and then delivers the frame all
+	// context is cancelled (the request ended early) or 5 ms passed, and then delivers the frame all
 	// the same - a message that was already on the wire. When it was woken by the cancellation it first
 	// takes every buffer out of the proxy's pool and remembers its content (probe); the next call on
 	// this stream (Recv / CloseSend) or the end of the request compares: a buffer that sat in the pool
@@ -109,7 +109,7 @@ func (s *c17Stream) Recv() (*storepb.SeriesResponse, error) {
 		select {
 		case <-s.ctx.Done():
 			woken = true
-		case <-time.After(30 * time.Millisecond):
+		case <-time.After(5 * time.Millisecond):
 		}
 		s.mu.Lock()
 		if woken {
